@@ -156,6 +156,8 @@ class Log:
         self.canaries = 0
         self.new_functions = []
         self.ghost_origin = {}
+        self.derives = {}           # struct -> derive list on the repository text (a derive that disappears was replaced by hand-written code)
+        self.trusted_text = {}      # external_body function -> digest of its repository text (the trust was given to that text)
         self.loop_shapes = {}       # function -> keywords of its loops in source order (for functions with loop clauses)      # contract line tag -> function whose body the ghost line is spliced into
 
     def rule(self, r, msg):
@@ -310,6 +312,8 @@ def emit_fn(out, src, item, spec, log, where, canary=False, strip=None, loop_sha
         log.rule("R4", "%s: signature replaced by `%s`" % (qual, spec.sig))
     if spec.external_body:
         log.external.append(qual)
+        import hashlib
+        log.trusted_text[qual.replace(" ", "")] = hashlib.sha256(" ".join(t.text for t in item.toks).encode()).hexdigest()[:16]
         log.rule("R10", "%s: body replaced by external_body (trusted contract)" % qual)
         if has_body:
             edits.append((toks[item.body_open].start, toks[item.body_close].end, "replace", [("{ unimplemented!() }", spec.vc_line)]))
@@ -415,6 +419,7 @@ def _struct_emit(out, src, item, derives, log, keep_private=False):
     attr_text = src.text[item.start:toks[item.attrs_end].start]
     m = re.search(r"#\[derive\(([^)]*)\)\]", attr_text)
     have = [d.strip() for d in m.group(1).split(",")] if m else []
+    log.derives[item.name] = sorted(set(log.derives.get(item.name, [])) | set(d for d in have if d))
     keep_default = {"Copy", "Clone", "PartialEq", "Eq"}
     keep = [d for d in have if (d in derives if derives is not None else d in keep_default)]
     dropped = [d for d in have if d not in keep]
@@ -612,7 +617,36 @@ def build(vc_path, repo_root, defines=None, canary=False, known_drops=None, stri
                 out.raw("\n")
         for name in b["fns"]:
             if name not in seen:
-                raise TemplateError("fn %s not found in %s" % (name, where))
+                # a trait impl that no longer defines a method the contract names: the trait's default body is what runs now.  Instantiate
+                # that default in the impl (as R13 does) with the contract header only (the in-body hints were written for the removed body),
+                # so the default is checked against the contract instead of leaving the unit undecided (seeded C01-r42)
+                hdr = [t.text for t in item.header()]
+                dflt = None
+                if b["kind"] == "impl" and "for" in hdr:
+                    k = hdr.index("for")
+                    depth = 0
+                    tname = None
+                    for t in reversed(hdr[:k]):        # last identifier at angle depth 0 before `for` = the trait's name
+                        if t in (">", ">>"):
+                            depth += len(t)
+                        elif t == "<":
+                            depth -= 1
+                        elif depth == 0 and re.fullmatch(r"[A-Za-z_][A-Za-z0-9_]*", t):
+                            tname = t
+                            break
+                    for cand in list(sources.values()):
+                        for it in cand.items:
+                            if it.kind == "trait" and it.name == tname:
+                                for x in split_items(it.toks[it.body_open + 1:it.body_close]):
+                                    if x.kind == "fn" and x.name == name and x.body_open >= 0:
+                                        dflt = (cand, x, tname)
+                if dflt is None:
+                    raise TemplateError("fn %s not found in %s" % (name, where))
+                spec = b["fns"][name]
+                spec.start, spec.tail, spec.anchors, spec.loops, spec.rewrites = [], [], [], {}, []
+                log.rule("R13", "%s: method %s is no longer defined by the impl; the default body of %s::%s is instantiated and checked against the contract" % (where, name, dflt[2], name))
+                log.new_functions.append("%s::%s [trait-impl method (default body of the trait, checked against the contract)]" % (where.replace(" ", ""), name))
+                emit_fn(out, dflt[0], dflt[1], spec, log, where, canary)
         for (isrc, tname, spec) in b.get("inherit", []):
             tr = [it for it in isrc.items if it.kind == "trait" and it.name == tname]
             if not tr:
